@@ -12,6 +12,7 @@
                                          | <n> <trace…> killed <0|1> disk <hex|none> load L
     c07.proto gen  <nf> (<act> <op>)… <hasold> <old> <new>
                                          | <n> <trace…> killed <0|1> disk <hex|none> load <hex|none|err>
+    c07.csave <njobs> <m> <nsavers> <iters>   | per new file content: s <lo…> <hi…> L   (concurrent saves, oracle only)
     c07.hist file|gen|yaml <hasold> OLD <nsaves> (<nf> (<act> <op>)… NEW)…
                                          | per save: sv <n> <trace…> killed <0|1> disk <hex|none> load <…>
       (OLD/NEW: file = T, gen = <hex>, yaml = <cursor> <offset> <bytes of the real encoder>)
@@ -281,6 +282,18 @@ def handleConc (args impl : List String) : Option (String × String) := do
   | none => some ("bad-trace", if impl.any (·.startsWith "panic") then "fail" else "bad-impl")
   | some svs => some (unwords impl, if svs.all (concSaveOk nsrc m nf) then "ok" else "fail")
 
+/-- c07.csave <njobs> <m> <nsavers> <iters>: concurrent saves on one offsetDB; records as c07.conc
+    (every loaded file names every job once, each job's table is one moment inside its window) -/
+def handleCsave (args impl : List String) : Option (String × String) := do
+  let (njobs, r) ← pNat args
+  let (m, r) ← pNat r
+  let (_, r) ← pNat r
+  let (_, r) ← pNat r
+  if r ≠ [] then none
+  match pConcSaves njobs (impl.length + 1) impl with
+  | none => some ("bad-trace", if impl.any (·.startsWith "panic") then "fail" else "bad-impl")
+  | some svs => some (unwords impl, if svs.all (concSaveOk njobs m 0) then "ok" else "fail")
+
 /-! ### c07.proto: the save protocol under injected failures and kills -/
 
 def pOk : String → Option Bool := bool?
@@ -525,6 +538,7 @@ def handle (cmd : String) (args impl : List String) : Option (String × String) 
   else if cmd = "c07.proto" then handleProto args impl
   else if cmd = "c07.conc" then handleConc args impl
   else if cmd = "c07.hist" then handleHist args impl
+  else if cmd = "c07.csave" then handleCsave args impl
   else none
 
 end FileD.DrvC07
